@@ -411,6 +411,18 @@ class Body:
         for cs in self.calls():
             out.append(cs)
             k = cs.callee
+            if known and k is not None and "{closure" in k and k in self.facts.bodies and depth <= 1:
+                # a closure called directly where it is defined: its calls are shown at the call site
+                tm = tm or Terms(self)
+                cc = closure_call_parts(cs.func, tuple(tm.operand(a, cs.bb) for a in cs.args))
+                hb = self.facts.bodies[k]
+                if cc is not None and len(hb.blocks) <= 80 and not hb.natural_loops():
+                    htm = Terms(hb)
+                    for inner in hb.calls_deep(depth + 1):
+                        at = [substitute_closure(htm.operand(a, inner.bb), cc[1], cc[2]) for a in inner.args] if not isinstance(inner, VirtualCallSite) else [substitute_closure(a["t"], cc[1], cc[2]) for a in inner.args]
+                        ct = substitute_closure(htm.call_term(inner.term, inner.bb), cc[1], cc[2])
+                        out.append(VirtualCallSite(cs, inner, at, ct))
+                continue
             if not known or k is None or k in known or k not in self.facts.bodies or depth > 1:
                 continue
             # (a helper taking &mut arguments cannot be inlined as a value, but the calls it makes can still be shown)
@@ -731,6 +743,62 @@ def inline_value(facts, key, depth=0, force=False):
     return val
 
 
+def closure_value(facts, key, depth=0):
+    """value returned by a small loop-free closure over its own args (('arg',1) = the environment, ('arg',2..) = parameters),
+    in the payload convention of inline_value.  Used for closures that are called directly where they are defined
+    (`let f = |x| ..; f(a)`), which is how a refactoring shares code between two call sites without a named helper."""
+    ck = (id(facts), key, "closure")
+    if ck in _INLINE_CACHE:
+        return _INLINE_CACHE[ck]
+    _INLINE_CACHE[ck] = None
+    b = facts.bodies.get(key)
+    if b is None or depth > 2 or b.kind != "closure" or len(b.blocks) > 80 or b.natural_loops():
+        return None
+    tm = Terms(b)
+    tm.inline_depth = depth + 1
+    rt = tm.return_term()
+    alts = list(rt[1]) if rt[0] == "phi" else [rt]
+    kept = []
+    for a in alts:
+        if is_err_value(a) or result_variant(a) in ("Err", "None") or a[0] == "noreturn":
+            continue
+        if result_variant(a) in ("Ok", "Some"):
+            a = agg_payload(a)
+            if a is None:
+                continue
+        kept.append(a)
+    val = mk_phi(kept) if len(kept) > 1 else (kept[0] if kept else None)
+    _INLINE_CACHE[ck] = val
+    return val
+
+
+def closure_call_parts(func, args):
+    """for a direct call `f(a, b)` of a closure value (Fn::call(&f, (a, b))): (closure body path, captures, actual parameters),
+    else None"""
+    if func.get("method") not in ("call", "call_mut", "call_once") or func.get("trait") not in ("std::ops::Fn", "std::ops::FnMut", "std::ops::FnOnce") or len(args) != 2:
+        return None
+    c = args[0]
+    while c[0] == "mut":
+        c = unmut(c)
+    c = strip_try(c) if c[0] != "closure" else c
+    if c[0] != "closure":
+        return None
+    tup = args[1]
+    if tup[0] != "tuple":
+        return None
+    return c[1], c[2], tup[1]
+
+
+def substitute_closure(t, caps, params):
+    def f(x):
+        if x[0] == "field" and x[1] == ("arg", 1) and str(x[2]).isdigit() and int(x[2]) < len(caps):
+            return caps[int(x[2])]
+        if x[0] == "arg" and isinstance(x[1], int) and 2 <= x[1] <= len(params) + 1:
+            return params[x[1] - 2]
+        return None
+    return rewrite(t, f)
+
+
 def _helper_shape_ok(facts, key, allow_mut_args=False):
     b = facts.bodies.get(key)
     if b is None:
@@ -973,6 +1041,12 @@ class Terms:
             val = inline_value(self.body.facts, rk, self.inline_depth)
             if val is not None:
                 return substitute_args(val, args)
+        if not _INLINE_OFF[0] and known_functions():
+            cc = closure_call_parts(f, args)
+            if cc is not None and cc[0] in self.body.facts.bodies:
+                val = closure_value(self.body.facts, cc[0], self.inline_depth)
+                if val is not None:
+                    return substitute_closure(val, cc[1], cc[2])
         if key == "<indirect>" or key == "<fnptr>" or key is None:
             fo = f.get("op")
             ft = self.operand(fo, bb, n) if fo else ("unknown", "fn")
@@ -1766,6 +1840,114 @@ def agg_payload(t):
         return t[3][0][1]
     return None
 
+
+
+
+def tree_of(F, root):
+    """a function, its closures (transitively) and the *new* helper functions they call (functions that did not exist when the
+    rules were written, e.g. a closure body extracted into a named function)"""
+    out, work = [], [root]
+    known = known_functions()
+    while work:
+        p = work.pop()
+        if p in out or p not in F.bodies:
+            continue
+        out.append(p)
+        b = F.bodies[p]
+        for q in sorted(F.bodies):
+            if q.startswith(p + "::{closure") and q not in out:
+                work.append(q)
+        for c in b.calls():
+            k = c.callee
+            if k and known and k in F.bodies and k not in known and "{closure" not in k:
+                work.append(k)
+    return [F.bodies[p] for p in out]
+
+
+def partitioned_terms(body, removed_edges):
+    """value-flow terms of the part of the function that remains when the given CFG edges are never taken
+    (trace partitioning: decide a switch one way and read the values the rest of the function computes)"""
+    removed = set(removed_edges)
+    live = set()
+    work = [0]
+    while work:
+        x = work.pop()
+        if x in live:
+            continue
+        live.add(x)
+        work += [y for y in body.succ[x] if (x, y) not in removed]
+    tm = Terms(body, edge_ok=lambda x, y: (x, y) not in removed and x in live)
+    tm.live = live
+    return tm
+
+# --------------------------------------------------------------------------
+# positional reading of iterator chains
+# --------------------------------------------------------------------------
+
+
+def clean(t):
+    """site-free, stripped, un-`mut`ed term with every kind of indexing shown as ('at', base, index)"""
+    def f(x):
+        if x[0] == "mut":
+            return rewrite(unmut(x), f)
+        if x[0] == "call" and len(x[2]) == 2 and re.search(r"::index(_mut)?$", x[1]):
+            return ("at", rewrite(x[2][0], f), rewrite(x[2][1], f))
+        if x[0] == "index" and len(x) == 3:
+            return ("at", rewrite(x[1], f), rewrite(x[2], f))
+        return None
+    return rewrite(nosite(deep_strip(t)), f)
+
+
+def positional_form(F, chain, I=("i",)):
+    """An iterator chain read position by position: (element at position I, set of length terms), or None.
+    iter(X) -> X[I]; 0..n -> I; enumerate(S) -> (I, S[I]); zip(A, B) -> (A[I], B[I]); map(S, f) -> f(S[I]);
+    copied/cloned/into_iter/by_ref are transparent.  All of `slice.iter().zip(0..n)`, `.iter().enumerate()` and
+    `.iter().zip(other.iter())` therefore read as the same pairing of elements."""
+    t = chain
+    while t[0] == "mut":
+        t = unmut(t)
+    if t[0] == "agg" and t[1].endswith("ops::Range") and dict(t[3]).get("start") in (("const", "usize", 0),):
+        return I, {clean(dict(t[3])["end"])}
+    if t[0] != "call":
+        return None
+    name = t[1].split("{")[0]
+    a = t[2]
+    if len(a) == 1 and re.search(r"(::into_iter|Iterator>?::(copied|cloned|by_ref|fuse)|::iter_mut|::iter)$", name):
+        inner = positional_form(F, a[0], I)
+        if inner is not None:
+            return inner
+        if re.search(r"(::iter|::iter_mut|::into_iter)$", name):
+            x = clean(a[0])
+            return ("at", x, I), {("len", x)}
+        return None
+    if len(a) == 1 and itm(name, "enumerate"):
+        inner = positional_form(F, a[0], I)
+        return None if inner is None else (("tuple", (I, inner[0])), inner[1])
+    if len(a) == 2 and itm(name, "zip"):
+        l, r = positional_form(F, a[0], I), positional_form(F, a[1], I)
+        return None if l is None or r is None else (("tuple", (l[0], r[0])), l[1] | r[1])
+    if len(a) == 2 and itm(name, "map") and a[1][0] == "closure" and a[1][1] in F.bodies:
+        inner = positional_form(F, a[0], I)
+        if inner is None:
+            return None
+        cb = F.bodies[a[1][1]]
+        if cb.natural_loops():
+            return None
+        v = substitute_closure(Terms(cb).return_term(), a[1][2], (inner[0],))
+        return proj_simplify(clean(v)), inner[1]
+    return None
+
+
+def proj_simplify(t):
+    """field k of a literal tuple is its k-th component"""
+    def f(x):
+        if x[0] == "field" and isinstance(x[1], tuple) and str(x[2]).isdigit():
+            b = rewrite(x[1], f)
+            if b[0] == "tuple" and int(x[2]) < len(b[1]):
+                return b[1][int(x[2])]
+            return ("field", b, x[2])
+        return None
+    return rewrite(t, f)
 
 # --------------------------------------------------------------------------
 # control-flow helpers used by path rules
